@@ -24,8 +24,10 @@ class Expression:
 
     def compile(self, out, flags):
         if not out.has_available_blocks(self.num_blocks):
+            # The helper function may need to call other rules, so it has to
+            # be driven as a sub-generator of the current function.
             func, params = self.functionalize(out, flags, is_generator=False)
-            out += (STATUS, RESULT, POS) << func(*params)
+            out += (STATUS, RESULT, POS) << Code('(yield from ', func(*params), ')')
             return
 
         if self.is_tagged:
@@ -67,6 +69,10 @@ class Expression:
         with out.global_section():
             with out.DEF(name, params):
                 self.compile(out, flags)
+                if not is_generator:
+                    # Make this a generator function even when the expression
+                    # itself never yields, so that "yield from" always works.
+                    out += Code('yield from ()')
                 method = out.YIELD if is_generator else out.RETURN
                 method((STATUS, RESULT, POS))
 
